@@ -8,12 +8,13 @@ B  vh c14, per scenario: fault-free run, then (a) sink failing at write-call ind
    (error and short write), (b) strict prefixes of the good file, (c) a ReaderAt failing / short-reading
    at call indexes - quick: structure boundaries +-1 and a seeded sample; thorough: every call index,
    every byte offset and every prefix length of files <=6 kB
+   + checks/pagebuffer.py: PageBuffer.tla / BufMon.tla on the buffers of every BufferPool implementation
 V  IOMon.tla: no panic; a fired fault is reported by an error; without an error the rows are complete
 """
 import time
 
 from lib import vf
-from checks import c01
+from checks import c01, pagebuffer
 
 PROP = "C14"
 
@@ -28,6 +29,8 @@ def run(tier, seed):
     vh = vf.build_vh()
     wd = vf.scratch()
     x = vf.model_check(wd, "Sink.tla", "MC_Sink.cfg", "X Sink")
+    out = vf.Verdict(PROP)
+    pb = pagebuffer.stage(vh, wd, quick, seed, out)   # the page buffers the writer stages its pages in
     base = c01.generate(wd, quick, seed, 60 if quick else 1200)
     # keep files small: drop the 65/130-row batches for most scenarios
     scenarios = []
@@ -53,7 +56,6 @@ def run(tier, seed):
     vf.log(f"[C14] V: {cnt}")
     if cnt["faulted"] < cnt["probes"] // 3 and cnt["flagged"] == 0:
         raise vf.Infra(f"dead driver: {cnt}")
-    out = vf.Verdict(PROP)
     by_id = {s["id"]: s for s in scenarios}
     per, confirm = {}, []
     for t, i, cls in verdict["bad"]:
@@ -89,7 +91,7 @@ def run(tier, seed):
                 "error or short read) on one writer scenario; non-trivial = the injected fault really fired (counted by the monitor from the "
                 "harness's `faulted` observation)",
         "samples": [scenarios[0], vf.events_of(tp, 1)[1:4]],
-        "probes_by_kind": kinds,
+        "probes_by_kind": kinds, "page_buffers": pb,
         "states": x.distinct + vr.distinct, "transitions": x.generated + vr.generated, "traces_validated_against_impl": cnt["traces"],
         "exhaustive": not quick, "known_findings": sorted(out.kf_hits),
     }, [
@@ -105,5 +107,8 @@ def c01_ops(ops):
 
 
 def replay(path, seed):
+    import json
+    if json.load(open(path)).get("scenario", {}).get("stage") == "bufpool":
+        return pagebuffer.replay(path, seed)
     pipe = vf.Pipeline(PROP, "c14", ("IOMon.tla", "IOMon.cfg"))
     return pipe.replay(path, seed)
